@@ -7,7 +7,7 @@ export PYTHONHASHSEED=0 PYTHONPATH="$PWD:${VERIF_REPO:-/repo}/src" PYTHONDONTWRI
 from harness import core
 ok, log, rep = core.ensure_built()
 print(log[-3000:])
-print("translator:", rep)
+print("translator: %d members read, %d unavailable, errors=%s" % (rep.get("n_translated", 0), rep.get("n_unavailable", 0), rep.get("errors")))
 import sys
 sys.exit(0 if ok else 1)
 PY
